@@ -280,8 +280,70 @@ IDENT = {
 }
 
 
+# "rich" kinds: cross-realm identity rules of ECMA-262 seen through one handed-over object.  S = "the evaluating realm is
+# the creator realm".  Each entry: (maker expression evaluated in the creator realm, probe evaluated in the receiving realm,
+# expected lines with S / N(ot S) placeholders).  Rules exercised: 10.2.1.1 (function code runs in the function's realm:
+# literals, arguments objects, template objects, closures, async / generator prototypes), 10.1.14 GetPrototypeFromConstructor
+# + 7.3.24 GetFunctionRealm (also through bound functions and proxies), 10.4.2.2 ArraySpeciesCreate (foreign %Array% is
+# ignored), 19.2.1 / 20.2.1.1 (indirect eval and `new Function` work in the realm of the eval / Function object they are
+# called through), 27.2.4.7 PromiseResolve (a foreign promise is wrapped), 9.3 / 13.2.8.4 (template objects are per realm
+# and per site).
+RICH = {
+    "xarr": ("[1,2]",
+             "var p=__inbox();print('ident',p instanceof Array,Array.isArray(p),Array.prototype.map.call(p,function(x){return x}) instanceof Array,"
+             "p.map(function(x){return x}) instanceof Array,Array.prototype.concat.call(p,[3]) instanceof Array,Array.from(p) instanceof Array,"
+             "JSON.stringify(p),Object.prototype.toString.call(p),p.slice(0) instanceof Array,Array.prototype.slice.call(p,0) instanceof Array)",
+             ["s:ident S b:true b:true S b:true b:true s:[1,2] s:[object Array] S b:true"]),
+    "ufn": ("(function F(){})",
+            "var f=__inbox();f.prototype=1;var o=Reflect.construct(Array,[],f);var q=new f();print('ident',Object.getPrototypeOf(o)===Array.prototype,"
+            "Array.isArray(o),Object.getPrototypeOf(q)===Object.prototype,q instanceof Object,"
+            "Object.getPrototypeOf(Reflect.construct(Object,[],f))===Object.prototype,Object.getPrototypeOf(Reflect.construct(Error,['m'],f))===Error.prototype,"
+            "Object.getPrototypeOf(Reflect.construct(Map,[],f.bind(null)))===Map.prototype,"
+            "Object.getPrototypeOf(Reflect.construct(Promise,[function(){}],new Proxy(f,{})))===Promise.prototype)",
+            ["s:ident S b:true S S S S S S"]),
+    "eval": ("eval", "var g=__inbox();print('ident',g('Array')===Array,g('this')===globalThis,g('[]') instanceof Array,g('typeof print'))",
+             ["s:ident S S S s:function"]),
+    "fctor": ("Function",
+              "var F=__inbox();var h=new F('return [Array,this,[]]');var r=h();print('ident',r[0]===Array,r[1]===globalThis,r[2] instanceof Array,"
+              "h instanceof Function,h instanceof F,Object.getPrototypeOf(h)===Function.prototype)",
+              ["s:ident S S S S b:true S"]),
+    "xprom": ("(async function(){return 5})()",
+              "var p=__inbox();print('ident',Promise.resolve(p)===p,p instanceof Promise,p.then(function(){}) instanceof Promise,"
+              "Promise.prototype.then.call(p,function(){}) instanceof Promise);(async function(){print('ident','aw',await p)})()",
+              ["s:ident S S S S", "s:ident s:aw n:5"]),
+    "xerr": ("new TypeError('x')",
+             "var e=__inbox();print('ident',e,e instanceof Error,e instanceof TypeError,Object.prototype.toString.call(e),e.name,e.message,"
+             "Error.prototype.toString.call(e));try{null.x}catch(t){print('ident',t instanceof TypeError)}",
+             ["s:ident E S S s:[object Error] s:TypeError s:x s:TypeError: x", "s:ident b:true"]),
+    "gen": ("(function*(){yield 1})",
+            "var g=__inbox();var it=g();var IP=Object.getPrototypeOf(Object.getPrototypeOf(Object.getPrototypeOf((function*(){})())));"
+            "print('ident',Object.getPrototypeOf(Object.getPrototypeOf(Object.getPrototypeOf(it)))===IP,it.next().value,[...g()].length,it[Symbol.iterator]()===it)",
+            ["s:ident S n:1 n:1 b:true"]),
+    "cls": ("(class K extends Array{})",
+            "var K=__inbox();var k=new K();print('ident',k instanceof K,k instanceof Array,Array.isArray(k),k.map(function(x){return x}) instanceof K,"
+            "Object.getPrototypeOf(K)===Array,Object.getPrototypeOf(K.prototype)===Array.prototype)",
+            ["s:ident b:true S b:true b:true S S"]),
+    "tmpl": ("(function(){function tag(s){return s}return [tag`a`,tag`a`,(function(){return tag`b`})(),Object.isFrozen(tag`c`),Array.isArray(tag`d`)]})",
+             "var f=__inbox();var r=f();var r2=f();print('ident',r[0]===r[1],r[0] instanceof Array,r[3],r[4],r2[0]===r[0],Object.getPrototypeOf(r[0])===Array.prototype)",
+             ["s:ident b:false S b:true b:true b:true S"]),
+    "args": ("(function(){return [arguments,/x/,function(){},()=>1,{},[],new.target,class{},async function(){},function*(){}]})",
+             "var f=__inbox();var r=f(1);print('ident',Object.getPrototypeOf(r[0])===Object.prototype,r[1] instanceof RegExp,r[2] instanceof Function,"
+             "r[3] instanceof Function,r[4] instanceof Object,r[5] instanceof Array,r[7] instanceof Function,"
+             "Object.getPrototypeOf(r[8])===Object.getPrototypeOf(async function(){}),Object.getPrototypeOf(r[9])===Object.getPrototypeOf(function*(){}),r instanceof Array)",
+             ["s:ident S S S S S S S S S S"]),
+}
+for _k, (_m, _p, _l) in RICH.items():
+    IDENT[_k] = "(function(){" + _p + "})()"
+
+
 def ident_expect(kind, same, user):
     b = "b:true" if same else "b:false"
+    if kind in RICH:
+        out = []
+        for line in RICH[kind][2]:
+            toks = [b if t == "S" else (("o:Error:TypeError" if same else "o:Object") if t == "E" else t) for t in line.split(" ")]
+            out.append([user, " ".join(toks)])
+        return out
     if kind == "arr":
         return [[user, f"s:ident {b} b:true {b} n:2"]]
     if kind == "err":
@@ -294,6 +356,8 @@ def ident_expect(kind, same, user):
 
 
 def make_src(kind, path=None):
+    if kind in RICH:
+        return RICH[kind][0]          # only made in pristine realms (the model withholds the prediction otherwise)
     return use_fn(path) if kind == "fn" else f"__make({js_str(kind)})"
 
 
